@@ -28,7 +28,7 @@ ASSUMPTIONS = [
     "FlowShiftTracker (needs images / optical flow) is not simulated",
 ]
 TIERS = {
-    "quick": {"runs": 30000, "time_cap_s": 70, "chunk": 200, "det_inproc": 10, "det_fresh": 5, "minimise_s": 40},
+    "quick": {"runs": 60000, "time_cap_s": 70, "chunk": 200, "det_inproc": 10, "det_fresh": 5, "minimise_s": 40},
     "thorough": {"runs": 3000000, "time_cap_s": 1200, "chunk": 1000, "det_inproc": 60, "det_fresh": 30, "minimise_s": 120},
 }
 
